@@ -340,6 +340,9 @@ def construct(case, inp):
         df["observed"] = np.nan
     elif form == "dtcol":
         df = df.reset_index(names="datetime")
+    if case.get("absent_rows"):
+        # the gaps are given as ABSENT rows: days on which neither usage nor temperature exists are not in the frame at all
+        df = df[~df[[c for c in ("observed", "temperature") if c in df.columns]].isna().all(axis=1)]
     return cls(df, is_electricity_data=electric)
 
 
@@ -356,6 +359,8 @@ def _key(case, **kw):
     elif fam == "bgap":
         k = {"cls": case["cls"], "fam": fam}  # one root cause: NaN reads are dropped before periods are formed
         kw.pop("criterion", None)
+    elif fam == "absent":
+        k = {"cls": case["cls"], "role": case["role"], "fam": fam}
     else:
         k = {"cls": case["cls"], "role": case["role"], "fam": fam if fam == "tonly" else "main"}
     k.update(kw)
@@ -499,6 +504,20 @@ def value_cases(tier):
                                     out.append({"fam": "value", "cls": kind, "role": role, "fuel": fuel, "entry": entry,
                                                 "feed": feed, "N": n, "m": m, "what": what, "place": "interior",
                                                 "defect": defect})
+    return out
+
+
+def absent_cases(tier):
+    """daily class, frame entry, daily feed: the same interior blocks of missing days, given as absent rows instead of NaN rows
+    (a day that is not in the frame has neither usage nor temperature)"""
+    out = []
+    for role in ROLES:
+        for n in (330, 365):
+            f = n // 10
+            for m in (f - 3, f + 3, 60):
+                for place in ("interior", "month"):
+                    out.append({"fam": "absent", "cls": "daily", "role": role, "fuel": "electric", "entry": "frame", "feed": "D", "N": n, "m": m,
+                                "what": "same", "place": place, "zone": ZONE_FIXED, "absent_rows": True})
     return out
 
 
@@ -649,7 +668,7 @@ def utcform_cases(tier):
 
 
 FAMILIES = [("thresholds grid", grid_cases), ("value defects", value_cases), ("DST zones", dst_cases),
-            ("per-month coverage", month_cases), ("empty columns", nodata_cases),
+            ("per-month coverage", month_cases), ("gaps as absent rows", absent_cases), ("empty columns", nodata_cases),
             ("temperature-only reporting", tonly_cases), ("billing NaN reads", bgap_cases),
             ("UTC spellings / datetime column", utcform_cases)]
 
